@@ -646,3 +646,26 @@ for _pid in ("C12", "C13", "C01", "C09"):
     PROPS[_pid]["explanation"] += (" System level for List (Props/SysList.lean): in the model whose ops are only produced by insert_index / append / delete_index from the issuing replica's state and delivered under the "
                                    "C12 discipline (a genuinely causal sub-system RunC is shown to be a sub-system), LogWF, Reach-derivability, fresh contiguous dots and the identifier facts (non-empty, ending in the op's dot, unique) are "
                                    "invariants of every run, so C12 / C13 hold for every execution with no hypothesis (run_same_ops_same_sequence(_later), run_global_order, run_no_duplicates, run_insert_lands_at_index, …).")
+
+# --------------------------------------------------------------------------------------------
+# Addenda (Props/Addenda.lean, Witness/NestedMore.lean): statements an independent audit of the Props files found missing
+# --------------------------------------------------------------------------------------------
+_ADD = dict(
+    C02=["Crdt.C02.map_keys_merge_comm", "Crdt.C02.map_keys_merge_assoc", "Crdt.C02.map_keys_merge_idem"],
+    C03=["Crdt.C03.map_keys_merge_is_union", "Crdt.Witness.OrswotMerge.merge_breaks_nested_reads"],
+    C09=["Crdt.C09.map_keys_stale_noop", "Crdt.C09.map_keys_dup_noop", "Crdt.Witness.DupRm.dup_key_remove_changes_state"],
+    C05=["Crdt.C05.keys_complete", "Crdt.Witness.MVRegNested.mvreg_nested_diverges", "Crdt.Witness.Depth2Orswot.depth2_diverges_inside_region",
+         "Crdt.Witness.Depth2MVReg.depth2_mvreg_reads_diverge"],
+    C01=["Crdt.Witness.MVRegNested.mvreg_nested_diverges"],
+    C06=["Crdt.C06.genLog_clocks_nodup"], C10=["Crdt.C10.cmp_less_iff_all"], C11=["Crdt.C11.pncounter_read_closed"],
+    C16=["Crdt.C16.list_reach_deliverable_ok", "Crdt.C16.list_reach_gap"], C17=["Crdt.C17.map_validateMerge_symmetric"],
+    C19=["Crdt.C19.map_reach_persist_anywhere", "Crdt.C19.list_reach_persist_anywhere"])
+for _pid in PROPS:
+    PROPS[_pid]["lean_targets"] = PROPS[_pid]["lean_targets"] + ["CrdtModel.Props.Addenda", "CrdtModel.Witness.NestedMore"]
+    PROPS[_pid]["required_theorems"] = PROPS[_pid]["required_theorems"] + _ADD.get(_pid, [])
+for _pid in ("C02", "C03", "C09"):
+    PROPS[_pid]["statement_coverage"] += "; Map key level stated explicitly (Addenda: map_keys_*); nested Map contents: false on the pinned tree (witnesses in Witness/NestedMore.lean, known findings)"
+PROPS["C19"]["statement_coverage"] += ("; persist steps inside the knowledge-indexed derivations of Map and List (map_reach_persist_anywhere, list_reach_persist_anywhere); NOTE the persist theorems say 'a persist step that SUCCEEDS changes nothing' – "
+                                       "availability is characterised separately (orswot_encode_ok_iff / map_encode_fails_iff: it fails exactly with a pending remove, the known finding)")
+PROPS["C16"]["statement_coverage"] = PROPS["C16"]["statement_coverage"].replace("List (all states)", "List (all states, and at history level: list_reach_deliverable_ok / list_reach_gap)")
+PROPS["C17"]["statement_coverage"] += "; whole Map verdict symmetric for value types with a symmetric nested check (map_validateMerge_symmetric)"
